@@ -53,7 +53,7 @@ SCENARIOS = {
     # the task manager, in any order relative to bindings and deaths
     'chain-q' : _scen(NT=3, NP=2, tasks=('t1',), pilots=('p1', 'p2'), mb=1, mpb=1, bindat=1,
                       early=True, remove=True),
-    'chain-t' : _scen(NT=3, NP=3, tasks=('t1', 't2'), pilots=('p1', 'p2'), mb=1, mpb=2, bindat=1,
+    'chain-t' : _scen(NT=3, NP=2, tasks=('t1', 't2'), pilots=('p1', 'p2'), mb=1, mpb=1, bindat=1,
                       early=True, remove=True),
     'death-t' : _scen(NT=4, NP=2, tasks=('t1', 't2', 't3'), pilots=('p1', 'p2'), mb=1, bindat=2,
                       early=True, direct=True),
